@@ -1,5 +1,6 @@
 import Sop.Model.Occ
 import Sop.Model.OccFresh
+import Sop.Props.C02
 import Sop.Driver.Util
 /-! Line protocol over Model L (shared by the C02 and C05 drivers). See harness/occx/emit.go for the Go side.
 
@@ -8,8 +9,8 @@ import Sop.Driver.Util
   pg <id> <page>                           -> ok      (page of an item a transaction will add)
   txn <t> <w|r> <commit|abort> <op>...     -> ok      ops: get:k upd:k:v updf:k:src:d add:id:k:v addne:id:k:v ups:id:k:v rm:k touch:k
   step <t> <hint>...                       -> state line of transaction t after the step
-  end                                      -> final committed state, then `\t%goodU:ok|no`: whether every step of the case met
-                                              C05's install-freshness hypothesis (`InstallFreshN` over the ids known so far)
+  end                                      -> final committed state, then `\t%hyp:…`: whether every step of the case met
+                                              C02's hypotheses (`GoodN`) and C05's install-freshness hypothesis (`InstallFreshN`)
 -/
 namespace Sop.Driver.OccProto
 open Sop.Driver Sop.Occ
@@ -115,6 +116,8 @@ def step (g : G) (ws : List String) : G × String :=
 structure St where
   g : G
   goodU : Bool := true
+  good : Bool := true     -- C02's hypotheses (`Sop.C02.GoodN`: Covered, Shape, ChecksAll, BeginSound) held before every step
+  n : Nat := 0            -- transactions 0 .. n-1 exist
 
 def resetSt (hdr : List String) : St := { g := reset hdr }
 
@@ -125,9 +128,14 @@ def stepSt (s : St) (ws : List String) : St × String :=
     match t.toNat? with
     | some t =>
       let items := s.g.ids ++ ((s.g.txns t).tracked.map (·.item))
-      ({ g := g', goodU := s.goodU && decide (InstallFreshN items s.g t) }, out)
+      let hint := (ws.drop 2).filterMap String.toNat?
+      ({ s with g := g', goodU := s.goodU && decide (InstallFreshN items s.g t),
+                good := s.good && decide (Sop.C02.CoveredN s.n s.g ∧ Sop.C02.ShapeN s.n s.g ∧ ChecksAll s.g ∧ Sop.C02.BeginSoundD s.g t hint) }, out)
     | none => ({ s with g := g' }, out)
-  | ["end"] => ({ s with g := g' }, out ++ (if s.goodU then "\t%goodU:ok" else "\t%goodU:no"))
+  | "txn" :: t :: _ => ({ s with g := g', n := max s.n ((t.toNat?.getD 0) + 1) }, out)
+  | ["end"] =>
+    let good := s.good && decide (Sop.C02.CoveredN s.n s.g ∧ Sop.C02.ShapeN s.n s.g ∧ ChecksAll s.g)
+    ({ s with g := g' }, out ++ (if good then (if s.goodU then "\t%hyp:good+goodU" else "\t%hyp:good-only") else (if s.goodU then "\t%hyp:goodU-only" else "\t%hyp:neither")))
   | _ => ({ s with g := g' }, out)
 
 def run : IO Unit := runLoop resetSt stepSt
